@@ -114,12 +114,20 @@ def one_program(ctx, fam, i):
             continue
         nontrivial = nontrivial or N >= 4
         ks = list(range(N)) if N <= 120 else sorted(set(int(j * (N - 1) / 119) for j in range(120)))
-        plans = [("k", k) for k in ks] + [("every", None), ("shutdown", None)]
-        for kind, k in plans:
-            use_async_cls = runner == "async" and rng.random() < 0.5
+        plans = [(kind, k, None) for kind, k in [("k", k) for k in ks] + [("every", None), ("shutdown", None)]]
+        if runner == "async" and N:
+            # async faulty processor next to a healthy async one that is still suspended (>= 3 loop turns) when the
+            # faulty one raises: at the very last event, at the first, on every event; both registration orders
+            plans += [(kind, k, first) for kind, k in (("k", N - 1), ("k", 0), ("every", None)) for first in (True, False)]
+        for kind, k, forced_first in plans:
+            use_async_cls = runner == "async" and (forced_first is not None or rng.random() < 0.5)
             F = (AFaulty if use_async_cls else Faulty)(k=k, every=(kind == "every"), at_shutdown=(kind == "shutdown"))
-            H = ARec("h", rng, 4) if runner == "async" and rng.random() < 0.6 else Rec("h")
-            first = rng.random() < 0.7
+            if forced_first is not None:
+                H = ARec("h", rng, 5, 3)
+                ctx.obs["suspended_sibling_plans"] += 1
+            else:
+                H = ARec("h", rng, 4) if runner == "async" and rng.random() < 0.6 else Rec("h")
+            first = rng.random() < 0.7 if forced_first is None else forced_first
             procs = [F, H] if first else [H, F]
             o = run_with(procs)
             ctx.obs["fault_runs"] += 1
